@@ -797,7 +797,12 @@ class Vector3d(Object3d):
             vv = symmetry[-1] * v[idx]
             if vv.size != 0:
                 v[idx] = vv
-            S = symmetry[:3]
+            if symmetry.name == "-4":
+                # The operations leaving the upper hemisphere invariant
+                # are the identity and the two-fold rotation
+                S = symmetry[::2]
+            else:
+                S = symmetry[:3]
         elif symmetry.name == "-3":
             idx = v.z < 0
             vv = symmetry[3] * v[idx]
